@@ -27,6 +27,12 @@ def tcp_table(F):
     table = {}
     for v in range(512):
         k, b, _ = eval_region(f, t['target'], {t['dest']['l']: v})
+        if k == 'stuck' and f.blocks[b]['term']['k'] == 'switch':
+            # a branch on data other than the flags: control flow inside an arm, the arm starts here -
+            # unless the flags take part in the condition (a guard mixing flags with other data is not a table row)
+            d = f.switch_edges(b)[0]
+            if not any(is_call(x, r'TcpPacket::<.*>::get_flags$') for x in walk(d)) and not any(isinstance(x, tuple) and x[0] in ('phi', 'cyc') for x in walk(d)):
+                k = 'arm'
         if k != 'arm':
             raise AnalysisError('tcp::repl: flag dispatch is not a pure guard region (value %#x: %s at bb%d)' % (v, k, b))
         table[v] = b
@@ -293,6 +299,25 @@ def edge_fact(d, v, vals):
                 truth = not truth
             eq = (cmpop == 'Eq') == truth
             return [(key, '==' if eq else '!=', cb)]
+    # Option/Result predicates are facts about the discriminant: x.is_some() <=> discr(x) == 1 ...
+    dd = peel(d, unwraps=False)
+    m_ = None
+    if isinstance(dd, tuple) and dd[0] == 'call' and len(dd[2]) == 1:
+        m_ = re.search(r'^std::(option::Option|result::Result)::<[^>]*(?:<[^>]*>[^>]*)*>::(is_some|is_none|is_ok|is_err)$', dd[1]) or \
+            re.search(r'^(?:std|core)::(option::Option|result::Result)::<.*>::(is_some|is_none|is_ok|is_err)$', dd[1])
+    if m_:
+        variant = {'is_some': 1, 'is_none': 0, 'is_ok': 0, 'is_err': 1}[m_.group(2)]
+        inner = dd[2][0]
+        while isinstance(inner, tuple) and inner[0] == 'ref':
+            inner = inner[1]
+        if v is None:
+            truth = True if vals == [0] else False if vals == [1] else None
+        else:
+            truth = (v != 0)
+        if truth is not None:
+            if neg:
+                truth = not truth
+            return [(('discr', inner), '==', variant if truth else 1 - variant)]
     key = _norm_key(d)
     if v is not None:
         val = v
@@ -354,52 +379,153 @@ def is_none_fact(facts, key):
     return (key, '!=', 1) in facts or (key, '==', 0) in facts
 
 
-def fact_sim(f, track, init_flags=frozenset(), on_call=None, on_edge_flags=None):
+def interesting_locals(f):
+    """Locals whose value has to be followed per path: a switch discriminant that, seen path-insensitively, is a
+    merge of several definitions (e.g. the result of an inlined bool helper: `!list.contains(x)` on one path,
+    `false` on the other), and the locals that flow into it by plain copies."""
+    c = getattr(f, '_interesting', None)
+    if c is not None:
+        return c
+    S = set()
+    for bi in range(f.n):
+        b = f.blocks[bi]
+        if b['cleanup']:
+            continue
+        t = b['term']
+        if t['k'] == 'switch' and t['discr']['k'] in ('copy', 'move') and not t['discr']['place']['p']:
+            d = f.switch_edges(bi)[0]
+            if any(isinstance(x, tuple) and x and x[0] == 'phi' for x in walk(d)):
+                S.add(t['discr']['place']['l'])
+    changed = True
+    while changed:
+        changed = False
+        for b in f.blocks:
+            if b['cleanup']:
+                continue
+            for st in b['stmts']:
+                if st['lhs']['p'] or st['lhs']['l'] not in S:
+                    continue
+                rv = st['rv']
+                ops = []
+                if rv['k'] == 'use':
+                    ops = [rv['a']]
+                elif rv['k'] == 'un':
+                    ops = [rv['a']]
+                for o in ops:
+                    if o['k'] in ('copy', 'move') and not o['place']['p'] and o['place']['l'] not in S:
+                        S.add(o['place']['l'])
+                        changed = True
+    f._interesting = S
+    return S
+
+
+def _bindings(flags):
+    return {x[1]: x[2] for x in flags if isinstance(x, tuple) and len(x) == 3 and x[0] == 'bind'}
+
+
+def _unbind(flags, l):
+    return frozenset(x for x in flags if not (isinstance(x, tuple) and len(x) == 3 and x[0] == 'bind' and x[1] == l))
+
+
+def sim_on_stmt(f, bi, i, stmt, st):
+    """Shared statement transfer of the fact simulations: constants and per-path bindings of interesting locals."""
+    flags, facts = st
+    lhs, rv = stmt['lhs'], stmt['rv']
+    if lhs['p']:
+        return st
+    l = lhs['l']
+    key = ('local', l)
+    had = [x for x in facts if x[0] == key]
+    INT = ('bool', 'u8', 'usize', 'isize', 'u32', 'u16', 'u64', 'i32')
+    if rv['k'] == 'use' and rv['a']['k'] == 'const' and isinstance(rv['a'].get('val'), int) and rv['a'].get('ty') in INT:
+        nf = set(facts) - set(had)
+        nf.add((key, '==', rv['a']['val']))
+        if l in interesting_locals(f):
+            flags = _unbind(flags, l)
+        return (flags, frozenset(nf))
+    if had:
+        facts = frozenset(set(facts) - set(had))
+    if l not in interesting_locals(f):
+        return (flags, facts)
+    flags = _unbind(flags, l)
+    binds = _bindings(flags)
+    src = rv['a'] if rv['k'] in ('use', 'un') else None
+    if src is not None and src['k'] in ('copy', 'move') and not src['place']['p']:
+        y = src['place']['l']
+        yc = [x for x in facts if x[0] == ('local', y) and x[1] == '==']
+        neg = rv['k'] == 'un' and rv.get('op') == 'Not'
+        if rv['k'] == 'un' and not neg:
+            return (flags, facts)
+        if yc:
+            v = yc[0][2]
+            if neg:
+                if f.locals[y]['ty'] != 'bool':
+                    return (flags, facts)
+                v = 1 - v
+            return (flags, frozenset(set(facts) | {(key, '==', v)}))
+        if y in binds:
+            e = ('un', 'Not', binds[y]) if neg else binds[y]
+            return (flags | {('bind', l, e)}, facts)
+    e = f._through(f.rvalue(rv, (bi, i)), (bi, i), 0)
+    if stable_expr(e, f.facts.fns):
+        flags = flags | {('bind', l, e)}
+    return (flags, facts)
+
+
+def sim_on_term(f, bi, t, st):
+    flags, facts = st
+    if t['k'] == 'call' and not t['dest']['p']:
+        l = t['dest']['l']
+        key = ('local', l)
+        had = [x for x in facts if x[0] == key]
+        if had:
+            facts = frozenset(set(facts) - set(had))
+        if l in interesting_locals(f):
+            flags = _unbind(flags, l)
+            e = f.call_val(bi)
+            if stable_expr(e, f.facts.fns):
+                flags = flags | {('bind', l, e)}
+    return (flags, facts)
+
+
+def sim_discr(f, bi, d, st):
+    """-> ('const', v) when the branch value is known on this path, ('expr', e) with the expression to reason about."""
+    flags, facts = st
+    tt = f.blocks[bi]['term']
+    if tt['discr']['k'] in ('copy', 'move') and not tt['discr']['place']['p']:
+        l = tt['discr']['place']['l']
+        known = [x for x in facts if x[0] == ('local', l) and x[1] == '==']
+        if known:
+            return ('const', known[0][2])
+        b = _bindings(flags)
+        if l in b:
+            return ('expr', b[l])
+    return ('expr', d)
+
+
+def fact_sim(f, track, init_flags=frozenset(), on_call=None, on_edge_flags=None, stable_fn=None):
     """Simulate f with states (flags, facts). `track(key)` selects which stable test keys are remembered.
     on_call(bi, term, flags) -> flags ; on_edge_flags(bi, succ, facts_on_edge, flags) -> flags.
     Returns (states_at_block_entry, exits)."""
     def on_stmt(bi, i, stmt, st):
-        # constant propagation for plain locals (the `matches!` idiom stores a bool and branches on it later)
-        flags, facts = st
-        lhs, rv = stmt['lhs'], stmt['rv']
-        if lhs['p']:
-            return st
-        key = ('local', lhs['l'])
-        had = [x for x in facts if x[0] == key]
-        if rv['k'] == 'use' and rv['a']['k'] == 'const' and isinstance(rv['a'].get('val'), int) and rv['a'].get('ty') in ('bool', 'u8', 'usize', 'isize', 'u32'):
-            nf = set(facts) - set(had)
-            nf.add((key, '==', rv['a']['val']))
-            return (flags, frozenset(nf))
-        if had:
-            return (flags, frozenset(set(facts) - set(had)))
-        return st
+        return sim_on_stmt(f, bi, i, stmt, st)
 
     def on_term(bi, t, st):
         flags, facts = st
         if t['k'] == 'call' and on_call:
             flags = on_call(bi, t, flags)
-        if t['k'] == 'call' and not t['dest']['p']:
-            key = ('local', t['dest']['l'])
-            had = [x for x in facts if x[0] == key]
-            if had:
-                facts = frozenset(set(facts) - set(had))
-        return (flags, facts)
+        return sim_on_term(f, bi, t, (flags, facts))
 
     def on_edge(bi, s, v, d, vals, st):
         flags, facts = st
-        # branch on a local whose constant value is known on this path
-        tt = f.blocks[bi]['term']
-        if tt['discr']['k'] in ('copy', 'move') and not tt['discr']['place']['p']:
-            key = ('local', tt['discr']['place']['l'])
-            known = [x for x in facts if x[0] == key and x[1] == '==']
-            if known:
-                kv = known[0][2]
-                taken = v == kv if v is not None else kv not in vals
-                return (flags, facts) if taken else None
-        efs = edge_fact(d, v, vals)
+        kind, x = sim_discr(f, bi, d, st)
+        if kind == 'const':
+            taken = v == x if v is not None else x not in vals
+            return (flags, facts) if taken else None
+        efs = edge_fact(x, v, vals)
         newfacts = set(facts)
         for ef in efs:
-            if not stable_expr(ef[0], f.facts.fns) or not track(ef[0]):
+            if not ((stable_fn(ef[0]) if stable_fn else False) or stable_expr(ef[0], f.facts.fns)) or not track(ef[0]):
                 continue
             if not consistent(newfacts, ef):
                 return None
@@ -408,7 +534,8 @@ def fact_sim(f, track, init_flags=frozenset(), on_call=None, on_edge_flags=None)
             flags = on_edge_flags(bi, s, efs, flags)
         return (flags, frozenset(newfacts))
 
-    return f.simulate((init_flags, frozenset()), on_stmt=on_stmt, on_term=on_term, on_edge=on_edge)
+    states, exits = f.simulate((init_flags, frozenset()), on_stmt=on_stmt, on_term=on_term, on_edge=on_edge, maxstates=20000)
+    return states, exits
 
 
 def flag_policy(v):
@@ -544,3 +671,110 @@ def helper_alternatives(F, facts, depth=0):
         if out:
             return out
     return [facts]
+
+
+def buf_segments(e):
+    """Shape of a freshly allocated byte buffer, independent of how it is spelled: a list of ('zeros', n_expr) and
+    ('data', expr) segments; vec![0; n], Vec::new() and [a, b].concat() are interpreted, anything else is data."""
+    e = peel(e, unwraps=False)
+    if is_call(e, r'vec::from_elem$') and const_val(e[2][0]) == 0:
+        return [('zeros', peel(e[2][1]))]
+    if is_call(e, r'Vec::<[^>]*>::new$'):
+        return []
+    if is_call(e, r'\[T\]>::concat$'):
+        arr = peel(e[2][0], unwraps=False)
+        if isinstance(arr, tuple) and arr[0] == 'agg':
+            out = []
+            for x in arr[2]:
+                out += buf_segments(x)
+            return out
+    return [('data', e)]
+
+
+def header_only(segs, size_rx):
+    return len(segs) == 1 and segs[0][0] == 'zeros' and is_call(segs[0][1], size_rx)
+
+
+def cmp_fact(facts, pred):
+    """'eq' / 'ne' / None: what the path facts say about a pair (a, b) with pred(a, b) (either order) that the code
+    compared with == or != (in any spelling: a != b false edge, !(a == b), ...)."""
+    for (k, r_, c_) in facts:
+        if not (isinstance(k, tuple) and k[0] == 'bin' and k[1] in ('Eq', 'Ne')):
+            continue
+        if not (_try(pred, k[2], k[3]) or _try(pred, k[3], k[2])):
+            continue
+        true_ = (r_ == '!=' and c_ == 0) or (r_ == '==' and c_ == 1)
+        false_ = (r_ == '==' and c_ == 0) or (r_ == '!=' and c_ == 1)
+        if not (true_ or false_):
+            continue
+        return 'eq' if (k[1] == 'Eq') == true_ else 'ne'
+    return None
+
+
+def path_states_at(f, blocks, track, stable_fn=None):
+    """{block: [facts, ...]} for every path state (fact simulation) that reaches the entry of each block."""
+    states, _ = fact_sim(f, track, stable_fn=stable_fn)
+    return {b: [facts for (_, facts) in states.get(b, ())] for b in blocks}
+
+
+def fact_edges(f, factpred):
+    """CFG edges (b, s) on which some fact (key, rel, const) with factpred(key, rel, const) is established -
+    independent of how the test is spelled (match arm, ==, !=, PartialEq, !, is_some() ...)."""
+    out = []
+    for bi in range(f.n):
+        if f.blocks[bi]['cleanup']:
+            continue
+        se = f.switch_edges(bi)
+        if not se:
+            continue
+        d, edges, vals = se
+        for (s_, v) in edges:
+            for (k, r_, c_) in edge_fact(d, v, vals):
+                try:
+                    hit = factpred(k, r_, c_)
+                except Exception:
+                    hit = False
+                if hit:
+                    out.append((bi, s_))
+                    break
+    return out
+
+
+def is_eq(rel, c, want, two=False):
+    """the fact (.., rel, c) establishes `key == want` (two=True: key has exactly the values 0 and 1)"""
+    return (rel == '==' and c == want) or (two and rel == '!=' and c == 1 - want)
+
+
+def is_ne(rel, c, want, two=False):
+    return (rel == '!=' and c == want) or (rel == '==' and c != want)
+
+
+def value_edges(f, keypred, value):
+    """edges on which a scalar (getter result, newtype stripped) with keypred(key) is established to equal value"""
+    return fact_edges(f, lambda k, r_, c_: keypred(k) and is_eq(r_, c_, value))
+
+
+def walker_resume_problems(F):
+    """Smack::search_next must resume exactly where the saved state says: every inner_match* call gets the row
+    `*state & 0xFFFFFF` (the saved value, never replaced), the input sliced from the saved cursor `px[*offset..]`
+    and its remaining length; pending matches come from `*state >> 24`.  -> list of problems."""
+    sw = F.fn('smack::smack::Smack::search_next')
+    out = []
+    ims = sw.calls(r'Smack::inner_match(_shift7)?$')
+    if not ims:
+        out.append('no inner_match call found')
+    for bi, t in ims:
+        row = peel(sw.argv(bi, 3), unwraps=False)
+        okrow = isinstance(row, tuple) and row[0] == 'bin' and row[1] == 'BitAnd' and peel(row[2], unwraps=False) == ('entry', ('deref', ('param', 2))) and const_val(row[3]) == 0xFFFFFF
+        if not okrow:
+            out.append('%s: starting row is %s, not the saved `*state & 0xFFFFFF`' % (sw.loc(bi), short(row)[:90]))
+        buf = peel(sw.argv(bi, 1), unwraps=False)
+        while is_call(buf, r'to_vec$'):
+            buf = peel(buf[2][0], unwraps=False)
+        okbuf = is_call(buf, r'Index<I>>::index$|Index::index$') and peel(buf[2][0]) == ('param', 3)
+        if okbuf:
+            r_ = peel(buf[2][1], unwraps=False)
+            okbuf = isinstance(r_, tuple) and r_[0] == 'agg' and 'RangeFrom' in str(r_[1]) and peel(r_[2][0], unwraps=False) == ('entry', ('deref', ('param', 4)))
+        if not okbuf:
+            out.append('%s: searched buffer is %s, not px[*offset..]' % (sw.loc(bi), short(buf)[:90]))
+    return out
